@@ -153,7 +153,12 @@ CLAIMED['C19'] = {
              'a permutation of the choice set, the corrections vanish and the evalX value of the get_logit expression equals the full logit; Partition and '
              'check_partition accept exactly the characterised inputs; generate_segment_size, the log-probability and weight formulas, the decrement and the '
              'column names are regenerated from source each run and the proofs are about them. Ties: streams sample, full, validate, segsize plus direct Python '
-             'oracles. PARTIAL: nested and cross-nested full-sampling equality is tested, not proved.'),
+             'oracles. Full sampling of the MEV models is proved as well: for every valid first sample and MEV sample with k = n in all strata (every RNG permutation) the '
+             'evalX value of the expression built by GenerateModel.get_nested_logit equals that of models.lognested, and get_cross_nested_logit that of models.logcnl, '
+             'on the full choice set (T19g, T19h; C05/C06 builders reused; Model/SamplingMev.v compared node for node with the Python trees by stream full, modulo the '
+             'iteration order of BelongsTo sets). Hypotheses: nest parameters != 0, alphas > 0, distinct nest names, the flat row holding the columns established by '
+             'T19a-T19c (checked per case by the oracles of the stream), nests inside the MEV partition; for the cross-nested logit a numeric nest parameter must be '
+             'one on which Python double arithmetic is exact (1/mu - 1 against (1 - mu)/mu; trivial for Expression parameters).'),
     'note': KERNEL + 'numpy/pandas sampling modelled as an arbitrary oracle; the ast extractor lib/impl/c19_gen.py; the harness float formula evaluator at '
             'relative 1e-9; the cythonbiogeme engine for both sides of the likelihood comparison.',
 }
@@ -181,7 +186,7 @@ CLAIMED['C05'] = {
              'category probabilities telescope to 1 and lie in [0,1] (logistic cdf proved monotone with range [0,1]; normal cdf by hypothesis). The Gallina builders '
              '(incl. a model of Python double arithmetic on numeric parameters and of Nests.__init__/check_partition/check_validity/from_tuple) are compared node for '
              'node with the trees /repo builds in both nest syntaxes (stream build); engine values of all alternatives are checked against the property directly and '
-             'against proved interval enclosures (stream prob_values). PARTIAL: alpha = 0 entries and 0**x are outside the reference semantics (sampled only).'),
+             'against proved interval enclosures (stream prob_values); stream build also demands that a nest repeating an alternative (first / middle / last position, 7 nested builders, both syntaxes) is refused with BiogemeError. PARTIAL: alpha = 0 entries and 0**x are outside the reference semantics (sampled only).'),
     'note': KERNEL + 'evalX as reference semantics; the expression bridge; the hand-written builders up to the sampled correspondence; cythonbiogeme numerics only sampled; '
             'Phi is a Section variable with monotonicity/range hypotheses.',
 }
@@ -191,10 +196,10 @@ CLAIMED['C06'] = {
              'induced partition; builders with explicit scale mu = 1 = unscaled builders; legacy tuple syntax = nest objects for all 13 builders (model of from_tuple; '
              'stream build demands identical Python trees for both syntaxes on every case); generating-function consistency: for the trees of '
              'get_mev_generating_for_nested and get_mev_for_nested, d/dV_i G(e^V) = e^{V_i} e^{ln G_i} (Coquelicot is_derive) for every available alternative, '
-             'including alternatives outside every nest; check_union can never fail after Nests.__init__. Stream pairs compares engine values of both sides of each '
+             'including alternatives outside every nest (that each nest lists each alternative once follows from the builder returning Ok: check_partition refuses a repetition, T06v_repeated_alternative_refused, demanded of the implementation by stream build); check_union can never fail after Nests.__init__. Stream pairs compares engine values of both sides of each '
              'reduction (1e-9) and central differences of G with exp(V_i + ln G_i) (1e-5); a regression of the repaired alone term is reported with a concrete witness.'),
     'note': KERNEL + 'same trusted base as C05 plus Coquelicot; reductions stated under exactness of Python-side float constants (trivial for Beta/Numeric parameters, '
-            'proved for 1.0); check_partition does not reject a repetition inside one nest (excluded by a NoDup hypothesis).',
+            'proved for 1.0).',
 }
 CLAIMED['C10'] = {
     'technique': 'Rocq proof over a hand-written model of draw generation / indexing and of the Monte-Carlo, Derive and Gauss-Hermite operators (tie B) + value correspondence through the proved interval evaluator',
